@@ -96,4 +96,65 @@ theorem rootSlash_below (s : Bytes) (rest : List Bytes) :
     simp [renderPath, cfgKey]
   simp [this]
 
+/-! ### /id/<id>/<rest> -/
+
+theorem flatMap_joinSlash : ∀ {rest : List Bytes}, rest ≠ [] → (rest.flatMap fun p => slash :: p) = slash :: joinSlash rest
+  | [], h => absurd rfl h
+  | [p], _ => by simp [joinSlash]
+  | p :: q :: r, _ => by
+    have ih := flatMap_joinSlash (rest := q :: r) (by simp)
+    simp only [List.flatMap_cons] at ih ⊢
+    rw [ih]; simp [joinSlash]
+
+theorem renderPath_append {a rest : List Bytes} (ha : a ≠ []) (hr : rest ≠ []) :
+    renderPath (a ++ rest) = renderPath a ++ slash :: joinSlash rest := by
+  have h1 : ∀ l : List Bytes, l ≠ [] → renderPath l = l.flatMap fun p => slash :: p := by
+    intro l hl; cases l with
+    | nil => exact absurd rfl hl
+    | cons _ _ => simp [renderPath]
+  rw [h1 _ (by simp [ha]), h1 _ ha, List.flatMap_append, flatMap_joinSlash hr]
+
+theorem okSegs_append {a b : List Bytes} (ha : okSegs a) (hb : okSegs b) : okSegs (a ++ b) := by
+  intro x hx; rcases List.mem_append.1 hx with h | h
+  · exact ha x h
+  · exact hb x h
+
+theorem route_render_id_rest {t : Bytes} {rest : List Bytes} (hok : okSegs (idSeg :: t :: rest)) :
+    route (renderPath (idSeg :: t :: rest)) = .id := by
+  have hm := muxClean_render hok (by simp)
+  have hr : renderPath (idSeg :: t :: rest) = idPrefix ++ (t ++ (rest.flatMap fun p => slash :: p)) := by
+    simp [renderPath, idPrefix]
+  unfold route
+  rw [hm, hr]
+  have h1 : (idPrefix ++ (t ++ (rest.flatMap fun p => slash :: p))).head? = some slash := by simp [idPrefix]
+  have h2 : ¬ (idPrefix ++ (t ++ (rest.flatMap fun p => slash :: p)) = slash :: cfgKey ∨
+      idPrefix ++ (t ++ (rest.flatMap fun p => slash :: p)) = slash :: idSeg) := by
+    simp [idPrefix, cfgKey, idSeg]
+  have h3 : cfgPrefix.isPrefixOf (idPrefix ++ (t ++ (rest.flatMap fun p => slash :: p))) = false := by
+    simp [cfgPrefix, idPrefix, cfgKey, idSeg, List.isPrefixOf]
+  have h4 : idPrefix.isPrefixOf (idPrefix ++ (t ++ (rest.flatMap fun p => slash :: p))) = true := by
+    rw [List.isPrefixOf_iff_prefix]; exact List.prefix_append _ _
+  simp [h1, h2, h3, h4]
+
+/-- `handleConfigID` appends the rest of the request path to the expanded path -/
+theorem handleConfigID_rest {idx : Index} {t : Bytes} {segs rest : List Bytes} (hokid : okSegs (idSeg :: t :: rest))
+    (hc : candidates t idx = [renderPath segs]) (hok : okSegs segs) (hne : segs ≠ []) :
+    handleConfigID idx (renderPath (idSeg :: t :: rest)) = .to (rootSlash (renderPath (segs ++ rest))) := by
+  have hrest : okSegs rest := fun x hx => hokid x (by simp [hx])
+  have ht : t ≠ [] := (hokid t (by simp)).1
+  unfold handleConfigID
+  rw [splitSlash_render hokid (by simp)]
+  simp only
+  simp only [ht, if_false, hc]
+  have : ¬ (([] : Bytes) ≠ [] ∨ idSeg ≠ idSeg) := by simp
+  simp only [this, if_false]
+  cases rest with
+  | nil => simp [joinSlash, cleanRooted_render_slash hok hne]
+  | cons r0 r' =>
+    rw [← renderPath_append hne (by simp), cleanRooted_render (okSegs_append hok hrest) (by simp [hne])]
+
+theorem handleConfig_path_irrelevant (env : Env) (r : Req) (x p : Bytes) (s : State) :
+    handleConfig env { r with path := x } p s = handleConfig env r p s := by
+  unfold handleConfig; rfl
+
 end CaddyModel.C12
